@@ -1,5 +1,5 @@
 #!/usr/bin/env python3
-"""Write meta.json for the round-4 to -9 seeded changes from RESULTS.tsv (run after tools/run_seeded.sh)."""
+"""Write meta.json for the round-4 to -10 seeded changes from RESULTS.tsv (run after tools/run_seeded.sh)."""
 import json, os, collections
 V = "/verif/seeded"
 DESC = {
@@ -119,6 +119,28 @@ DESC = {
              "the same Crop object used for a second sow_samples / grow / reap cycle: the reap pairs the new results with the first cycle's cached cases"),
  "S-C16-9": ("_SLURM_HEADER gains 'mkdir -p <outdir>' and an --output directive before {header_options}",
              "slurm array scripts: sbatch stops reading #SBATCH lines at the first command, so the --array directive after it is a plain comment - bash with a stub task id still works"),
+ "S-C01-10": ("check_for_duplicates also rejects floats that agree to 15 significant digits",
+              "an argument whose values contain two distinct floats 1-2 ulp apart ([0.3, 0.1 + 0.2]): the whole sweep is refused with XYZError"),
+ "S-C04-10": ("Reaper.__call__ uses None as the 'ran out of results' sentinel",
+              "a function that returns None for some setting: every full reap raises XYZError instead of returning None there"),
+ "S-C05-10": ("parse_cases wraps bare values per case and no longer special-cases str",
+              "bare string cases of length != 1 on a one-argument runner: harvest_cases(['wxyz']) computes and stores fn('w') at 'w'"),
+ "S-C06-10": ("Crop.sow_combos: `if shuffle:` instead of `if shuffle is not None:` before self.shuffle = shuffle",
+              "a default (falsy) shuffle at sow on a crop object whose .shuffle is truthy (xyzpy.Crop(farmer=..., shuffle=5), or a second cycle after a shuffled one): sown in grid order, recorded as shuffled"),
+ "S-C08-10": ("Crop._sync_info_from_disk copies batchsize / num_batches from the settings file only when the object has none",
+              "a crop sown with num_batches larger than the number of cases (capped on disk), re-opened with the same explicit argument: missing_results() lists phantom batches"),
+ "S-C09-10": ("Crop._sync_info_from_disk sets self.shuffle and the reap methods use it - but the allow_incomplete path never syncs",
+              "partial reap through a Crop object that was made before the crop was sown elsewhere: stale shuffle, values and placeholders at wrong positions"),
+ "S-C10-10": ("Sower.save_batch skips writing a batch file whose result already exists",
+              "reap killed in delete_all after a batch file went and before the same-numbered result: no re-sow ever restores the batch file, check_bad raises FileNotFoundError"),
+ "S-C11-10": ("write_to_disk takes the temporary name's unique part from the global random generator",
+              "a swept function that seeds the global generator from its arguments, the same batch grown twice at once: both writers use one temporary name"),
+ "S-C12-10": ("results_to_ds: failing to record a dimension-naming constant as a coordinate only warns",
+              "a stored output description whose constant for an internal dimension has the wrong length: the reap returns (and a harvester saves) a dataset without that coordinate, the crop is deleted"),
+ "S-C15-10": ("Sampler.gen_cases_fnargs runs the per-run override through parse_combos (no duplicate values allowed)",
+              "a per-run combos override whose choice list repeats a value ([2, 5, 2]): XYZError, 0 rows appended"),
+ "S-C16-10": ("gen_cluster_script, single mode: explicit batch_ids equal to (1..num_batches) are 'simplified' to crop.missing_results()",
+              "single-mode script for all batches in ascending order while some already have results: those are not re-grown"),
 }
 rows = collections.defaultdict(dict)
 own = {}
@@ -147,19 +169,19 @@ if os.path.exists(p):
 for sid, (change, needs) in DESC.items():
     prop = sid.split("-")[1]
     meta = {
-        "id": sid, "property": prop, "round": int(sid.split("-")[2][0]),
+        "id": sid, "property": prop, "round": int("".join(ch for ch in sid.split("-")[2] if ch.isdigit())),
         "origin": ("independent sub-agent given only the property text, the ideas used in rounds 1-3, a request to "
                    "make the change manifest only near the upper edge of the quantified ranges or under a rare "
-                   "combination, and a scratch worktree of /repo (no access to /verif)") if sid.endswith("-4") else
+                   "combination, and a scratch worktree of /repo (no access to /verif)") if sid.split("-")[2] == "4" else
                   ("independent sub-agent given only the property text, the ideas used in rounds 1-5, a request for a "
                    "change that leaves the simplest straight-line use correct and breaks the property only under one "
                    "completion order / grow order / session pattern / scheduler behaviour (with a focus area), and a "
-                   "scratch worktree of /repo (no access to /verif)") if sid.endswith("-6") else
+                   "scratch worktree of /repo (no access to /verif)") if sid.split("-")[2] == "6" else
                   ("independent sub-agent given only the property text, all ideas used in rounds 1-6 and the instruction "
                    "'the hard round: the subtlest violation you can construct that is still clearly inside the property' "
                    "(one data type or shape, a sequence of >= 3 calls, two rarely combined options, an arithmetic "
                    "relation between sizes, dictionary / listing order, a plausible-looking wrong result), and a "
-                   "scratch worktree of /repo (no access to /verif)") if sid.endswith("-7") or sid.endswith("-8") or sid.endswith("-9") else
+                   "scratch worktree of /repo (no access to /verif)") if sid.split("-")[2] in ("7", "8", "9", "10") else
                   ("independent sub-agent given only the property text, the ideas used in rounds 1-4, a request for a "
                    "change that leaves every sequential fault-free use correct and breaks the property only in one "
                    "crash window / interleaving / I-O error (with a focus area), and a scratch worktree of /repo "
@@ -169,7 +191,7 @@ for sid, (change, needs) in DESC.items():
             "demo_with_change": "exit 1", "demo_without_change": "exit 0",
             "existing_tests_with_change": "tests/test_gen tests/test_manage.py tests/test_utils.py: 1 failed "
                 "(pre-existing TestBenchmarker::test_basic), 241 passed, 12 skipped - identical to the unmodified tree",
-            "command": "/verif/scratch/verify_seeded{}.sh; worktree removed afterwards".format(sid.split("-")[2][0])},
+            "command": "/verif/scratch/verify_seeded{}.sh; worktree removed afterwards".format("".join(ch for ch in sid.split("-")[2] if ch.isdigit()))},
         "checks_run": "tools/final_matrix.sh: the patch applied to a scratch copy of /repo/xyzpy (XSIM_REPO), "
                       "./check <its own property> quick (seeded/RESULTS_own.tsv); with FULL=1 every claimed check "
                       "(seeded/RESULTS.tsv)",
